@@ -3,7 +3,9 @@
 usage: python -m harness.store_h <in.json> <out.ndjson>      (PYTHONPATH=<repo>/Python:/verif)
 
 in.json  {"jobs": [{"id": n, "events": [{ev, tgt, task, a, s, v, run, c, lvl, to}, ...],
-                    "sweep": true|false, "chunk": 0|n, "real_digest": true|false}, ...]}
+                    "sweep": true|false, "chunk": 0|n, "real_digest": true|false,
+                    "env": {"targets": [names added beforehand], "regs": [{task, a, av, s, sv, v, vv} registered
+                            beforehand], "runmap": {model run: real run id}}}, ...]}
 out      one ndjson line per job: {"tid", "metric_vals", "steps": [{"ev", "args", "st", "obs"}, ...]}
 
 What runs is the REAL code of the working tree:
@@ -15,6 +17,11 @@ What runs is the REAL code of the working tree:
   * Remove / Reset / Trace / Next / AddTarget / Register   dawgie.db.remove / reset / trace / next / add / update
   * Reopen            DBI().close(); DBI().open()
   * Bump              no call: the harness' algorithm objects declare another version from now on
+The optional environment puts the history on a database that is not empty and whose numbers are not single
+digits: filler and model names are registered beforehand in an order that gives the model's names numeric ids
+such as 1 and 10..19, and the model's runs 1,2,3 are played as e.g. 9,10,11 - so every operation that handles
+the stringified keys ("(run, target, task, alg, sv, value)") by text is exposed.  Everything logged (arguments,
+state, results) carries the REAL numbers; the specification never looks at ids.
 The algorithm objects are minimal real dawgie.Algorithm / StateVector / Value subclasses holding one state
 vector with one value (names and versions chosen by the schedule).
 
@@ -403,6 +410,17 @@ def run_job(job, base):
     DBI().close()
     DBI().open()
     cur = {'alg': 10000, 'sv': 10000, 'val': 10000}
+    # environment of the history (chosen by the driver, logged in the trace header): what the database already
+    # knows before the history starts (targets added, engine elements registered - real db.add / db.update calls,
+    # no data), and which real run ids stand for the model's runs (a monotone map)
+    env = job.get('env') or {}
+    for tn in env.get('targets', []):
+        dawgie.db.add(tn)
+    for r in env.get('regs', []):
+        alg = Alg(r['a'], r['av'], [SV(r['s'], r['sv'], {r['v']: Val(UNTOUCHED, r['vv'])})])
+        sv = alg.state_vectors()[0]
+        dawgie.db.update(dawgie.Task(r['task'], 0, 0, ''), alg, sv, r['v'], sv[r['v']])
+    runmap = {int(k): int(v) for k, v in (env.get('runmap') or {}).items()}
     proj = Projector()
     steps = [{'ev': 'Init', 'args': args_of({}, cur), 'st': proj.delta(cur, True), 'obs': obs0()}]
     done = []
@@ -420,13 +438,15 @@ def run_job(job, base):
         steps.append({'ev': e['ev'], 'args': args, 'st': proj.delta(cur, e['ev'] in ('Update', 'Remove', 'Reopen')), 'obs': obs})
 
     for e in job['events']:
+        if int(e.get('run', 0)) in runmap:
+            e = dict(e, run=runmap[int(e['run'])])
         play(e)
     if job.get('sweep', True):
         for e in sweep_events(done, cur):
             play(e)
     DBI().close()
     shutil.rmtree(d, True)
-    return {'tid': job['id'], 'metric_vals': METRIC_VALS, 'chunk': chunk, 'skipped': len(skipped), 'steps': steps}
+    return {'tid': job['id'], 'metric_vals': METRIC_VALS, 'chunk': chunk, 'skipped': len(skipped), 'env': {'targets': env.get('targets', []), 'regs': len(env.get('regs', [])), 'runmap': [[k, v] for k, v in sorted(runmap.items())]}, 'steps': steps}
 
 
 METRIC_VALS = list(dawgie.util.MetricStateVector(dawgie.METRIC(0, 0, 0, 0, 0, 0, 0), dawgie.METRIC(0, 0, 0, 0, 0, 0, 0)).keys())
